@@ -350,13 +350,21 @@ let run_arr (c : case) =
              | Some x -> let (x', r) = aspec_step pn x o in sp := Some x'; " s=" ^ str_aout r in
            match astep_c pn !s o with
            | Ok (((s', r), cnt)) ->
+             let s_before = !s in
              s := s';
              let bytes = aencode pnat ty s' in
              let is_ext = (match o with AExt _ -> true | _ -> false) in
              pr "%d r=%s d=%s" i (str_aout r) (fnv bytes);
              if not is_ext then
                pr " abs=%s" (match aderef s' with Ok l -> cells_str l | _ -> "PANIC");
-             (match o with AGet _ | AContains _ -> pr " cm=%s" (string_of_n cnt) | _ -> ());
+             (match o with
+              | AGet _ | AContains _ -> pr " cm=%s" (string_of_n cnt)
+              | AGetMut (c, _) ->
+                (* get_mut searches with the same binary search: count it on the state before the write *)
+                (match aindex s_before c with
+                 | Ok ((_, n)) -> pr " cm=%s" (string_of_n n)
+                 | _ -> ())
+              | _ -> ());
              Buffer.add_string out spec_res;
              if !full then pr " b=%s" (hex_of_bytes bytes);
              pr "\n"
@@ -489,6 +497,9 @@ let run_pod (c : case) =
           if offi mod al <> 0 then "P" else
           (match load (nat_of_int szi) (bytes_of_hex hx) with
            | Ok x -> "O" ^ hex_of_bytes x | _ -> "P")
+        | ["loadmutnw"; sz; hx] ->
+          (match load (nat_of_int (int_of_string sz)) (bytes_of_hex hx) with
+           | Ok _ -> "O" ^ hex_or_dash (bytes_of_hex hx) | _ -> "P")
         | ["loadmut"; sz; hx; vx] ->
           (match load_mut_store (nat_of_int (int_of_string sz)) (bytes_of_hex hx) (bytes_of_hex vx) with
            | Ok x -> "O" ^ hex_of_bytes x | _ -> "P")
